@@ -21,7 +21,7 @@ for p in props:
             "level_claimed": {
                 "category": "model_checking",
                 "text": c.get("level_text", "Bounded symbolic execution of the real functions (go/ssa of /repo's working tree) with an SMT solver deciding every assertion over all inputs inside the stated bounds; counterexamples are replayed natively before being reported."),
-                "design_ref": "DESIGN.md §4 " + pid,
+                "design_ref": "DESIGN.md §6 " + pid,
             },
             "level_note": "Bounds: " + c.get("bounds_text", "") + " Outside the claim: " + c.get("outside_claim", "") + " Trusted: go/ssa, the engine's instruction semantics (cross-checked by native replay of solver models), z3/cvc5, the environment stubs listed in the evidence file.",
             "technique": "symbolic execution of go/ssa + SMT (z3/cvc5), bounded",
